@@ -1125,9 +1125,10 @@ class PandasModelBase(
         self.drop_indices(res)
         if scratch_col is not None:
             del res[scratch_col]
-        on_a_set = set(op.on_a)
         for c in common_cols:
-            if c not in on_a_set:
+            # every shared column that kept a right-hand copy (all but keys joined under the same name):
+            # this includes a left key that is an ordinary column of the right table
+            if (c + right_suffix) in res.columns:
                 is_null = res[c].isnull()
                 res.loc[is_null, c] = res.loc[is_null, c + right_suffix]
                 res = res.drop(c + right_suffix, axis=1, inplace=False)
